@@ -18,6 +18,8 @@ import Shutter.Drive.Validate
 import Shutter.Drive.Net
 import Shutter.Drive.Trigger
 import Shutter.Drive.Syncer
+import Shutter.Drive.Dkg
+import Shutter.Drive.Crash
 
 open Shutter
 
@@ -36,6 +38,8 @@ def dispatch (st : DState) (line : String) : DState × String :=
   | "NET" :: rest => (st, Drive.Net.step rest)
   | "TRG" :: rest => (st, Drive.Trigger.step rest)
   | "SYN" :: rest => (st, Drive.Syncer.step rest)
+  | "DKG" :: rest => (st, Drive.Dkg.step rest)
+  | "CR" :: rest => (st, Drive.Crash.step rest)
   | "KG" :: rest => (st, Drive.EpochKG.step rest)
   | "SG" :: rest => (st, Drive.Signers.step rest)
   | "API" :: rest => (st, Drive.Api.step rest)
